@@ -366,7 +366,7 @@ def classify_exception(e, eff_method, shots, prog, meas):
     if eff_method == "tree-traversal" and not shots and fn == "insert_mcms" and isinstance(e, TypeError):
         return "tree-traversal-analytic-insert-mcms-single-wire-measurement"
     if eff_method == "tree-traversal" and D.postselects(prog) and fn in ("_", "combine_measurements", "combine_measurements_core") \
-            and isinstance(e, (ZeroDivisionError, TypeError)):
+            and isinstance(e, (ZeroDivisionError, TypeError, ValueError)):
         return "tree-traversal-postselect-empty-subtree"
     mode = "" if fn in ("<lambda>",) else ("-shots" if shots else "-analytic")
     return f"{eff_method}{mode}-crash:{type(e).__name__}@{fn}"
